@@ -24,12 +24,12 @@ TIMEOUT = {"quick": 300, "thorough": 1200}
 
 
 def cases(tier, seed):
-    n = 72 if tier == "quick" else 400
+    n = 72 if tier == "quick" else 2000
     cs = workload.reader_population(n, seed)
     for i, c in enumerate(cs):
         c["kind"] = "gen"
         c["sel_seed"] = seed * 7 + i
-        c["budget"] = 170 if tier == "quick" else 400
+        c["budget"] = 170 if tier == "quick" else 2000
     if tier == "thorough":
         for a in ("example_plt_2d", "example_plt_3d", "plt1_Y", "plt2_F", "plt_eb_3d"):
             cs.append({"kind": "asset", "asset": a, "sel_seed": seed, "budget": 120})
